@@ -446,9 +446,15 @@ impl<'a, T: QueryToRelationTranslator + Copy + Clone> VisitedQueryRelations<'a, 
         tables_with_joins: &'a Vec<ast::TableWithJoins>,
     ) -> Result<RelationWithColumns> {
         // TODO consider more tables
-        // For now, only consider the first element
-        // It should eventually be cross joined as described in: https://www.postgresql.org/docs/current/queries-table-expressions.html
-        self.try_from_table_with_joins(&tables_with_joins[0])
+        // For now, only one element is supported
+        // Several elements should eventually be cross joined as described in: https://www.postgresql.org/docs/current/queries-table-expressions.html
+        match tables_with_joins.as_slice() {
+            [table_with_joins] => self.try_from_table_with_joins(table_with_joins),
+            [] => Err(Error::other("A FROM clause is required")),
+            _ => Err(Error::other(
+                "Comma separated tables in FROM are not supported, use explicit JOINs",
+            )),
+        }
     }
 
     /// Extracts named expressions from the from relation and the select items
